@@ -34,7 +34,8 @@ META = {
             "length ranges for all actuators: mj_saveModel bytes of  compile twice / compile of an mj_copySpec copy and of a "
             "copy of the copy / mj_copyModel / load(save) / usethread 0 and 1 (repeated, real threads) / mj_recompile of the "
             "unchanged spec  must all be identical, and so must the first compile in a fresh process, after three other "
-            "specs were compiled in the process, and inside the batch run (no hidden state carried between compiles); mj_recompile must keep time, qpos, qvel, act, ctrl, mocap (class "
+            "specs were compiled in the process, and inside the batch run (no hidden state carried between compiles); mj_recompile must keep time, qpos, qvel, act, ctrl, mocap_pos, mocap_quat -- every component preset to pairwise "
+            "distinct non-default values on models with several mocap bodies / actuators / multi-dof joints (class "
             "saved-state-lost, always alarms) and also after an edit that appends a body. KNOWN FINDING C33-F1: the other "
             "mjSTATE_INTEGRATION components (history, qacc_warmstart, qfrc_applied, xfrc_applied, eq_active, userdata) are reset "
             "by mj_recompile (class unsaved-integration-state-reset; fixed corpus in both tiers). "
@@ -231,12 +232,16 @@ def compile_cases(ctx):
     # a hang is a regression (TIMEOUT alarms)
     cases.append({"seed": 365416, "feat": 280819, "nbody": 7, "nmesh": 0, "ntex": 0, "flags": 9, "reps": 1})
     cases.append({"seed": 343637, "feat": 498587, "nbody": 4, "nmesh": 0, "ntex": 2, "flags": 42, "reps": 2})
+    cases.append({"seed": 11, "feat": FEAT_ALL, "nbody": 5, "nmesh": 0, "ntex": 1, "flags": 64 | 16, "reps": 1})   # several mocap bodies, delayed actuators
     for i in range(10 if q else 50):
         feat = 0
         for b in (1, 2, 4, 8, 16, 32, 64, 128, 256, 512, 1024, 2048, 4096, 8192, 16384, 32768, 65536, 131072, 262144):
             if rng.random() < 0.6:
                 feat |= b
         flags = rng.choice((0, 2, 4, 6, 16, 18, 20, 22, 8, 10))
+        if i % 3 != 1:
+            flags |= 64    # 2..4 extra mocap bodies: stride-3 and stride-4 index spaces differ from the second body on
+            feat |= 128    # activations
         if i % 2 == 0:
             flags |= 32    # muscle rig: length ranges of the muscles through the pool (default LRopt.mode)
             if i % 4 == 0:
